@@ -1,0 +1,35 @@
+//go:build verif
+
+package utils
+
+import "sort"
+
+// Read-only accessors used by the C07 correspondence harness (/verif/go/cmd/c07).
+
+// VerifC07DataURL is the observable part of a parsed `data:` URL.
+type VerifC07DataURL struct {
+	MimeType string
+	Params   [][2]string // sorted by key
+	Data     []byte      // payload, before percent-decoding
+	IsBase64 bool
+}
+
+// VerifC07ParseDataURL exposes parseDataURL.
+func VerifC07ParseDataURL(url []byte) (VerifC07DataURL, error) {
+	d, err := parseDataURL(url)
+	if err != nil {
+		return VerifC07DataURL{}, err
+	}
+	out := VerifC07DataURL{MimeType: d.mimeType, Data: d.data, IsBase64: d.isBase64}
+	for k, v := range d.params {
+		out.Params = append(out.Params, [2]string{k, v})
+	}
+	sort.Slice(out.Params, func(i, j int) bool { return out.Params[i][0] < out.Params[j][0] })
+	return out, nil
+}
+
+// VerifC07Unescape exposes unescape (percent-decoding of a data: payload).
+func VerifC07Unescape(s []byte) ([]byte, error) { return unescape(s) }
+
+// VerifC07StripSpaces is the whitespace removal DefaultUrlFetcher applies to data: URLs.
+func VerifC07StripSpaces(s string) string { return htmlSpacesRe.ReplaceAllString(s, "") }
